@@ -157,7 +157,7 @@ func RealKill(sc *Scenario, k int, ref []*workflow.Plan, which string, res *vpro
 	if len(plans) != len(sc.Plans) {
 		return false // killed before every plan was created
 	}
-	sort.Slice(plans, func(i, j int) bool { return plans[i].Name < plans[j].Name })
+	sort.Slice(plans, func(i, j int) bool { return planIndexOf(plans[i]) < planIndexOf(plans[j]) })
 	d := durableFromPlans(plans)
 	rr := Run(sc, RunOpts{Vault: v, Reg: reg, Recover: true, Pristine: plans})
 	if rr.NewErr != nil {
@@ -293,4 +293,34 @@ func WriteFault(sc *Scenario, k int, res *vprop.Result) bool {
 		}
 	}
 	return true
+}
+
+// planIndexOf recovers the scenario index of a stored plan from the tag carried by the request of one of its actions
+// (names are not used: a scenario may give a plan an unusual name).
+func planIndexOf(p *workflow.Plan) int {
+	idx := -1
+	look := func(as []*workflow.Action) {
+		for _, a := range as {
+			if idx < 0 && a != nil {
+				if r, ok := ParseTag(tagOf(a.Req)); ok {
+					idx = r.Plan
+				}
+			}
+		}
+	}
+	groups := func(cs ...*workflow.Checks) {
+		for _, c := range cs {
+			if c != nil {
+				look(c.Actions)
+			}
+		}
+	}
+	groups(p.BypassChecks, p.PreChecks, p.ContChecks, p.PostChecks, p.DeferredChecks)
+	for _, b := range p.Blocks {
+		groups(b.BypassChecks, b.PreChecks, b.ContChecks, b.PostChecks, b.DeferredChecks)
+		for _, sq := range b.Sequences {
+			look(sq.Actions)
+		}
+	}
+	return idx
 }
